@@ -52,7 +52,8 @@ type c12Space struct {
 	prefix   []int
 	depth    int // all sequences of <= depth macro-events
 	drawsTo  int // sequences of <= drawsTo macro-events are run with every draw (if they consume one)
-	hardStop bool
+	rootLen  int // prefix-sharing walk: sequences of this length are the roots of the work items
+	skipDef  bool // from-scratch enumeration: the first draw was already covered by the walk
 }
 
 func c12Sig(c *c12Case, clause string, drawUsed bool) string {
@@ -169,7 +170,9 @@ func c12EnumSpace(a *c12Agg, sp *c12Space, item *int64) {
 		"profiles": c12Profiles, "paths": names, "macro_events": c12EvNames, "prefix": c12SeqNames(sp.prefix),
 		"max_window_packets": sp.maxPkts, "cycle_offset_draws": c12Draws,
 	}
-	p.Bounds = map[string]any{"max_macro_events": sp.depth, "all_draws_up_to_macro_events": sp.drawsTo, "single_draw_beyond": c12Draws[0]}
+	if !sp.skipDef {
+		p.Bounds = map[string]any{"max_macro_events": sp.depth, "all_draws_up_to_macro_events": sp.drawsTo, "single_draw_beyond": c12Draws[0]}
+	}
 	doneLen := -1
 	stopped := false
 	enum.Sequences(c12NEv, sp.depth, func(seq []int) bool {
@@ -192,6 +195,13 @@ func c12EnumSpace(a *c12Agg, sp *c12Space, item *int64) {
 					}
 					c := c12Case{Part: sp.part, Profile: string(prof), Path: pi, MaxPkts: sp.maxPkts, Prefix: sp.prefix, Seq: append([]int{}, seq...), Draw: dv}
 					r := c12Run(&c)
+					if di == 0 && sp.skipDef {
+						// evaluated by the prefix-sharing walk; run here only to learn whether a draw is consumed
+						if !r.drawUsed || r.clause != "" || r.infra != "" {
+							break
+						}
+						continue
+					}
 					a.observe(p, &c, &r)
 					if p.Evaluations%9973 == 1 {
 						p.Sample(map[string]any{"profile": c.Profile, "path": c12PathOf(pi).Name, "seq": c12SeqNames(seq), "draw": dv, "modes": r.shape, "events": r.sim.events})
@@ -213,7 +223,7 @@ func c12EnumSpace(a *c12Agg, sp *c12Space, item *int64) {
 	})
 	if stopped {
 		p.Exhaustive = false
-		p.Note("deadline reached: every sequence of <= %d macro-events was completed for all profiles, paths and draws; longer ones only partly", doneLen)
+		p.Note("deadline reached: with every draw, every sequence of <= %d macro-events was completed for all profiles and paths; longer ones only partly", doneLen)
 	}
 }
 
@@ -321,17 +331,17 @@ func c12Spaces(thorough bool) []*c12Space {
 	all := []int{0, 1, 2, 3}
 	if thorough {
 		return []*c12Space{
-			{part: "macro-sequences", paths: all, maxPkts: c12RealMaxPkts, depth: 5, drawsTo: 3},
-			{part: "small-max-window", paths: []int{1, 2}, maxPkts: 100, depth: 4, drawsTo: 3},
-			{part: "long-fat-real-max-window", paths: []int{-1}, maxPkts: c12RealMaxPkts, prefix: []int{c12EvClean12}, depth: 1, drawsTo: 1},
-			{part: "tiny-bdp", paths: []int{-2}, maxPkts: c12RealMaxPkts, depth: 4, drawsTo: 3},
+			{part: "macro-sequences", paths: all, maxPkts: c12RealMaxPkts, depth: 6, drawsTo: 4, rootLen: 2},
+			{part: "small-max-window", paths: []int{1, 2}, maxPkts: 100, depth: 4, drawsTo: 3, rootLen: 1},
+			{part: "tiny-bdp", paths: []int{-2}, maxPkts: c12RealMaxPkts, depth: 4, drawsTo: 3, rootLen: 1},
+			{part: "long-fat-real-max-window", paths: []int{-1}, maxPkts: c12RealMaxPkts, prefix: []int{c12EvClean12}, depth: 1, drawsTo: 1, rootLen: 0},
 		}
 	}
 	return []*c12Space{
-		{part: "macro-sequences", paths: all, maxPkts: c12RealMaxPkts, depth: 4, drawsTo: 2},
-		{part: "small-max-window", paths: []int{1, 2}, maxPkts: 100, depth: 3, drawsTo: 2},
-		{part: "long-fat-real-max-window", paths: []int{-1}, maxPkts: c12RealMaxPkts, prefix: []int{c12EvClean12}, depth: 1, drawsTo: 0},
-		{part: "tiny-bdp", paths: []int{-2}, maxPkts: c12RealMaxPkts, depth: 3, drawsTo: 2},
+		{part: "macro-sequences", paths: all, maxPkts: c12RealMaxPkts, depth: 4, drawsTo: 3, rootLen: 2},
+		{part: "small-max-window", paths: []int{1, 2}, maxPkts: 100, depth: 3, drawsTo: 2, rootLen: 1},
+		{part: "tiny-bdp", paths: []int{-2}, maxPkts: c12RealMaxPkts, depth: 3, drawsTo: 2, rootLen: 1},
+		{part: "long-fat-real-max-window", paths: []int{-1}, maxPkts: c12RealMaxPkts, prefix: []int{c12EvClean12}, depth: 1, drawsTo: 0, rootLen: 0},
 	}
 }
 
@@ -349,7 +359,14 @@ func c12Enumerate(sh *evidence.Shard) {
 		// cheap directed spaces first, the big one last (it is the one a deadline may cut)
 		sps := c12Spaces(sh.Env().Thorough())
 		for i := len(sps) - 1; i >= 0; i-- {
-			c12EnumSpace(a, sps[i], &item)
+			// every draw on the shorter sequences (from scratch), then the first draw to full depth
+			// (prefix-sharing walk)
+			if sps[i].drawsTo > 0 {
+				d := *sps[i]
+				d.depth, d.skipDef = min(d.drawsTo, d.depth), true
+				c12EnumSpace(a, &d, &item)
+			}
+			c12WalkSpace(a, sps[i], &item)
 		}
 	}); infra != "" {
 		sh.InfraError("%s", infra)
